@@ -361,7 +361,7 @@ def slice_defs(scala_file, names, within: str | None = None) -> list[str]:
     'stats' for `package object stats`, 'object EType' to exclude the companion class); None = top level of the file.
     A name may carry a selector: 'fatal~errorId: Int' keeps only the overloads whose header (text up to
     the body) contains the given substring; 'fatal~!Truncatable' keeps those that do not."""
-    sc = scan_file(scala_file)
+    sc = scala_file if isinstance(scala_file, Scan) else scan_file(scala_file)
     regions = [(0, len(sc.text), 0)]
     if within:
         for part in within.split('.'):
@@ -385,6 +385,79 @@ def slice_defs(scala_file, names, within: str | None = None) -> list[str]:
             raise HarnessError(f'jvmslice: no definition named {spec!r} in {sc.origin}' + (f' within {within}' if within else ''))
         out.extend(found)
     return out
+
+
+_SELFTEST_SRC = r'''package a.b
+
+import x.y._
+
+/* outer /* nested { */ still comment } */
+object Other { def f = "object Tricky { def g = 1 }" }
+
+final case class Tok(value: String) extends Base {
+  override def name: String = "tok"
+}
+
+object Tricky extends Base {
+  val pat = """[()\[\]{}<>"]""".r // a } in a comment
+  private[this] val q = '"'
+  def brace(c: Char): Boolean = c == '{' || c == '\'' || c == '}'
+
+  def msg(pos: Int, xs: Seq[Char]): String =
+    s"""at $pos
+       |${" " * pos}${xs.map { c =>
+        if (c == '\t') c else ' '
+      }}^ } {""".stripMargin
+
+  def over(a: Int): Int = a
+  def over(
+    a: Int,
+    b: Int = 2,
+  ): Int = {
+    // def over(fake: Int) = 0
+    a + b
+  }
+
+  def D_>(a: Double, b: Double): Boolean = a > b
+  def D_>=(a: Double, b: Double): Boolean =
+    a >= b
+  lazy val last: Int = (0 to 3).map { i =>
+    i * 2
+  }.sum
+}
+class Tricky(n: Int)
+'''
+
+
+def selftest():
+    """The scanner on a text with every construct that has tripped naive slicers."""
+    sc = Scan(_SELFTEST_SRC, '<selftest>')
+
+    def one(names, within=None):
+        return slice_defs(sc, names, within)
+
+    checks = [
+        (one(['Tok']), ['final case class Tok(value: String) extends Base {\n  override def name: String = "tok"\n}']),
+        (one(['brace'], 'Tricky'), ["def brace(c: Char): Boolean = c == '{' || c == '\\'' || c == '}'"]),
+        (one(['D_>'], 'object Tricky'), ['def D_>(a: Double, b: Double): Boolean = a > b']),
+        (one(['D_>='], 'Tricky'), ['def D_>=(a: Double, b: Double): Boolean =\n    a >= b']),
+        (one(['q'], 'Tricky'), ["private[this] val q = '\"'"]),
+        (one(['last'], 'Tricky'), ['lazy val last: Int = (0 to 3).map { i =>\n    i * 2\n  }.sum']),
+        ([len(x.split('\n')) for x in one(['over'], 'Tricky')], [1, 7]),
+        ([x.split('\n')[0] for x in one(['over~b: Int'], 'Tricky')], ['def over(']),
+        ([x.split('\n')[-1] for x in one(['msg'], 'Tricky')], ['      }}^ } {""".stripMargin']),
+        ([x.split('\n')[0] for x in one(['Tricky'])], ['object Tricky extends Base {', 'class Tricky(n: Int)']),
+    ]
+    for got, want in checks:
+        if got != want:
+            raise HarnessError(f'jvmslice self-test failed: got {got!r}, expected {want!r}')
+    try:
+        one(['g'], 'Tricky')
+    except HarnessError:
+        pass
+    else:
+        raise HarnessError('jvmslice self-test: found a definition that only exists inside a string literal')
+    return True
 
 
 def slice_text(scala_file, names, within=None, sep='\n\n') -> str:
